@@ -196,7 +196,7 @@ func (m *monitor) settle() {
 		}
 		if q > 0 && q < len(m.prevStk) {
 			par := stk[q-1]
-			if par.ScriptHash() != m.prev.Hash {
+			if par.ScriptHash() != m.prev.Hash && atCallNative(par) {
 				actor = ctxInfo{Hash: par.ScriptHash(), Flags: par.GetCallFlags(), Op: opcode.SYSCALL, Sys: interopnames.SystemContractCallNative, Off: par.IP(), Depth: q, Entry: -1}
 				if mt := m.meta[par]; mt != nil {
 					actor.Entry = mt.EntryIP
@@ -530,4 +530,14 @@ func (v *env) safeMethodAt(h util.Uint160, entry int) (string, bool) {
 		}
 	}
 	return "", false
+}
+
+// atCallNative tells whether the context stands at a System.Contract.CallNative
+// instruction, i.e. is a native contract's context in the middle of a method.
+func atCallNative(c *vm.Context) bool {
+	prog, ip := c.Program(), c.IP()
+	if ip < 0 || ip+5 > len(prog) || opcode.Opcode(prog[ip]) != opcode.SYSCALL {
+		return false
+	}
+	return binary.LittleEndian.Uint32(prog[ip+1:]) == interopnames.ToID([]byte(interopnames.SystemContractCallNative))
 }
